@@ -810,10 +810,13 @@ def scenario_dns(rnd, hostile_too=False):
         ("127.0.0.1", "127.0.0.1", False, "x.invalid", "forge-nxdomain"),
         ("127.0.0.2", "127.0.0.1", False, "c.example.com", "acl-dns-only-client"),
         ("127.0.0.4", "127.0.0.1", False, "d.example.com", "acl-no-permission-client"),
+        # the same client without the recursion-desired bit: the ACL applies whatever the flags are
+        ("127.0.0.4", "127.0.0.1", False, "e.invalid", "acl-no-permission-client-rd0-forged-name"),
+        ("127.0.0.4", "127.0.0.1", False, "f.example.com", "acl-no-permission-client-rd0"),
     ]
     for src, dst, v6, name, what in cases:
         qid += 1
-        r = udp_ask(src, dst, 5353, dns_query(qid, name), v6)
+        r = udp_ask(src, dst, 5353, dns_query(qid, name, rd=0 if "rd0" in what else 1), v6)
         out.append({"what": what, "dst": dst, "qid": qid, "reply": r})
     # hostile datagrams at the listener that answers on this tree ([::1]); after each one a valid query
     # for a fresh name must still be answered
